@@ -15,6 +15,8 @@ fn tables() -> BTreeMap<String, FnSpec> {
     // lp: logging probe that always succeeds; fp: logging probe that always fails
     fns.insert("lp".to_string(), FnSpec { cacheable: false, fail_on: vec![], fail_first: 0 });
     fns.insert("fp".to_string(), FnSpec { cacheable: false, fail_on: vec![], fail_first: u32::MAX });
+    // cp: cacheable probe (only its argument's evaluation is of interest here)
+    fns.insert("cp".to_string(), FnSpec { cacheable: true, fail_on: vec![], fail_first: 0 });
     fns
 }
 
@@ -302,6 +304,15 @@ fn family() -> Vec<EvalCase> {
             out.push(mk_case(Expr::Map(m)));
         }
     }
+    // the argument of a cacheable function is evaluated at every call site, also at textually identical ones
+    let site = || Expr::func("cp", Expr::func("lp", Expr::value(7)));
+    out.push(mk_case(Expr::Vec(vec![site(), site()])));
+    out.push(mk_case(Expr::eq(site(), site())));
+    out.push(mk_case(Expr::add(site(), site())));
+    out.push(mk_case(Expr::Vec(vec![site(), Expr::func("cp", Expr::func("lp", Expr::value(8))), site()])));
+    // identical non-cacheable operands of == / != are both evaluated
+    out.push(mk_case(Expr::eq(Expr::func("lp", Expr::value(7)), Expr::func("lp", Expr::value(7)))));
+    out.push(mk_case(Expr::neq(Expr::func("lp", Expr::value(7)), Expr::func("lp", Expr::value(7)))));
     // nested call arguments
     out.push(mk_case(Expr::func("lp", Expr::func("lp", fresh()))));
     out.push(mk_case(Expr::func("lp", Expr::func("fp", fresh()))));
